@@ -30,6 +30,9 @@ RULE = ("per format (qcow2, vmdk, vhdx, vhd, vdi, hds via their generators; vmta
         "Unknown, Free with size 0 / 1; every object-table entry: type / offset (self, table 0, EOF, 2^63..) / size / allocated; table counts / signatures); deflate bombs; rho- and loop-shaped ParentGUID graphs; tar headers with negative sizes. "
         "VHDX bases are redrawn until the file stays below 6 MiB (10 bases per run); fixed grid of 38 VHDX images whose virtual size ends inside "
         "a logical sector (512 / 4096; at a block boundary, inside the last / the only block, below one sector; remainder 1, 17, half, ss-1; last block present / absent / zero). "
+        "VHD / VDI additionally a directed family on fixed bases (one dynamic + two fixed VHDs, two VDIs): EVERY size-like field of the footer, "
+        "the dynamic header, the VDI header and the first / last BAT / block-map entry := each of {0, 1, 2, 511..513, old±1, 2·old, file size (+1, /512), "
+        "2^16, 2^20, 2^24, 2^26, 2^28 (+512), 2^29, 2^30, 2^31−1, 2^31, 2^32−512, 2^32−1; 64-bit fields also 2^32 (+512), 2^40, 2^62, 2^63∓1, 2^64−512, 2^64−1}. "
         "Each case: open + reads at start / middle / end / whole (≤ 1 MiB) (+ listing / decoding for non-disk inputs). Expected: every call "
         "returns or raises within the watchdog, and tracemalloc's peak stays below 16 MiB + 64·(real input bytes: Python objects per table entry) + 4·(largest request). "
         "Non-trivial = a mutated (not pristine) input; distinct (family, mutation).")
@@ -206,6 +209,45 @@ def vhdx_tail_grid(rng, m, tier):
     return out
 
 
+# --------------------------------------------------------------------------- VHD / VDI header fields
+
+def _edge_values(w, old, fsize):
+    """edge values for a w-byte count / size / offset field: nothing, one, a sector more or less, what the file really holds, powers
+    of two from 64 Ki to the sign bit and beyond (what a count must reach to cost hundreds of MiB when something is allocated per
+    announced unit or per announced byte), all ones"""
+    mx = (1 << (8 * w)) - 1
+    vals = [0, 1, 2, 511, 512, 513, (old + 1) & mx, (old - 1) & mx, (old * 2) & mx, fsize & mx, (fsize + 1) & mx, (fsize // 512) & mx,
+            1 << 16, 1 << 20, 1 << 24, 1 << 26, 1 << 28, 0x10000000 + 512, 1 << 29, 1 << 30, 0x7FFFFFFF, 0x80000000, 0xFFFFFE00, 0xFFFFFFFF]
+    if w == 8:
+        vals += [1 << 32, (1 << 32) + 512, 1 << 40, 1 << 62, (1 << 63) - 1, 1 << 63, mx - 511, mx]
+    out = []
+    for v in vals:
+        v &= mx
+        if v != old and v not in out:
+            out.append(v)
+    return out
+
+
+def _vhd_field_bases(rng, tier):
+    c04 = _mod("c04")
+    bases = []
+    for bs in ((1 << 16,) if tier == "quick" else (4096, 1 << 16, 1 << 19)):
+        r = c04.dyn_recipe(rng, bs, c04.gen_states(rng, rng.choice([3, 5])), style=rng.choice(["identity", "shuffled"]), extra=rng.choice([0, 1]))
+        bases.append(r)
+    bases.append({"kind": "fixed", "size": rng.choice([12288, 100 * 512, 65536 + 512]), "legacy": False, "seed": rng.randrange(256), "content": {"kind": "plain"}})
+    bases.append({"kind": "fixed", "size": rng.choice([4096, 307200]), "legacy": True, "seed": rng.randrange(256), "content": {"kind": "plain"}})
+    return bases
+
+
+def _vdi_field_bases(rng, tier):
+    c05 = _mod("c05")
+    bases = []
+    for bs in ((4096, 1 << 16) if tier == "quick" else (512, 4096, 1 << 16, 1 << 20)):
+        bmap, _ = c05.successor_map(rng, rng.choice([3, 5, 8]))
+        bases.append(c05.map_recipe(rng, bs, bmap, version=rng.choice([0x00010001, 0x00010000])))
+    return bases
+
+
 # --------------------------------------------------------------------------- cases
 
 def generate(seed, tier):
@@ -265,6 +307,20 @@ def generate(seed, tier):
             # the same as a fixed grid of explicit shapes (vhdx_tail_grid)
             for r2, variant in vhdx_tail_grid(vrng, m, tier):
                 add(cls, base=r2, mut=["none"], variant=variant)
+    # ---- VHD / VDI: directed edge values for EVERY size-like field of the structures the readers use (footer, dynamic header, BAT
+    # entries; VDI header, block map entries): counts, sizes and offsets that announce far more than the file holds must not drive
+    # memory or time (bound: MEM_BASE + 64 * file bytes + 4 * largest request). Fixed bases, own random stream.
+    frng = random.Random(f"C11/vhd-vdi-fields/{seed}/{tier}")
+    for cls, bases in (("c04", _vhd_field_bases(frng, tier)), ("c05", _vdi_field_bases(frng, tier))):
+        m = _mod(cls)
+        for r in bases:
+            files = m.build({"id": "x", "recipe": r, "align": 8192, "queries": []}).files
+            fields, endian = m.header_fields(r)
+            add(cls, base=r, mut=["none"], variant=["field-base"])
+            for name, off, w in fields:
+                old = int.from_bytes(files["a"].read_at(off, w).ljust(w, b"\0"), endian)
+                for v in _edge_values(w, old, files["a"].size):
+                    add(cls, base=r, mut=["patches", "a", [[off, v.to_bytes(w, endian).hex()]], f"{name}:={v:#x}"], variant=["field", name, f"{v:#x}"])
     # ---- qcow2 (own opener: the mutated files are used, not the pristine truth)
     import gen_qcow2
     for b in range(16 * mult):
